@@ -28,10 +28,16 @@ _MECARD_ESCAPE = {
 }
 
 
+_VCARD_NEWLINES = {
+    ord('\n'): '\\n',
+    ord('\r'): None,
+}
+
 _VCARD_ESCAPE = {
     ord(','): '\\,',
     ord(';'): '\\;',
 }
+_VCARD_ESCAPE.update(_VCARD_NEWLINES)
 
 
 def _escape_mecard(s):
@@ -301,7 +307,7 @@ def make_vcard_data(name, displayname, email=None, phone=None, fax=None,
 
     escape = _escape_vcard
     data = ['BEGIN:VCARD', 'VERSION:3.0',
-            f'N:{name}',
+            f'N:{str(name).translate(_VCARD_NEWLINES)}',
             f'FN:{escape(displayname)}']
     if org:
         data.append(f'ORG:{escape(org)}')
